@@ -161,12 +161,45 @@ class Case:
         self.recip = bool(directed and (A & A.T).any())
         self.kvar = bool(np.ptp(R.degree(A, directed)) > 0)
         self.net = None
-        ok, net = ctx.call(Network, adjacency=A.copy(), directed=directed,
-                           silence_level=3)
+        # the adjacency in a representation a caller may hold it in (dense
+        # of several dtypes, nested list, scipy sparse of several formats and
+        # dtypes, bool included): same graph
+        import scipy.sparse as sp
+        rh = ctx.rng("adjform", cid)
+        form = str(rh.choice(["i1", "i1", "i8", "bool", "f8", "list",
+                              "csr", "csc", "coo", "lil"]))
+        if form in ("i1", "i8", "bool", "f8"):
+            Ah = A.astype(form)
+        elif form == "list":
+            Ah = A.astype(int).tolist()
+        else:
+            sdt = str(rh.choice(["bool", "i1", "i8", "f8", "u1"]))
+            Ah = getattr(sp, form + "_matrix")(A.astype(sdt))
+            form = f"{form}:{sdt}"
+        ctx.count("adjacency_held_as:" + form)
+        # ... and, in a third of the cases, an object with a past: built
+        # with non-uniform node weights, n.s.i. measures queried, weights
+        # reset to the default afterwards
+        past = rh.random() < 0.33 and self.n >= 2
+        kw = {"node_weights": rh.uniform(0.5, 3.0, self.n)} if past else {}
+        ok, net = ctx.call(Network, adjacency=Ah, directed=directed,
+                           silence_level=3, **kw)
         if not ok:
             ctx.violation(f"constructor:{self.dirs}:raises:{type(net).__name__}",
-                          self.info(exc=repr(net)), cid)
+                          self.info(exc=repr(net), held_as=form), cid)
             return
+        if past:
+            import warnings
+            with warnings.catch_warnings():
+                warnings.simplefilter("ignore")
+                with np.errstate(all="ignore"):
+                    for q in ("nsi_degree", "nsi_betweenness",
+                              "nsi_local_clustering", "nsi_closeness",
+                              "nsi_average_path_length", "nsi_indegree",
+                              "nsi_outdegree", "nsi_bildegree"):
+                        ctx.call(getattr(net, q))
+            net.node_weights = None
+            ctx.count("objects_with_a_past")
         self.net = net
         if W is not None:
             ok, e = ctx.call(net.set_link_attribute, "w", W.copy())
@@ -283,6 +316,27 @@ def check_graph(ctx, Network, A, directed, cid, rng, heavy=True):
                 counter="weighted_compared")
         c.check("bildegree", "key", R.bildegree(A, W), "w",
                 counter="weighted_compared")
+        # strengths are plain sums: link weights of either sign (a second
+        # attribute on the same object; read back first)
+        sg = rng.choice([-1.0, 1.0], size=W.shape)
+        if not directed:
+            sg = np.triu(sg, 1)
+            sg = sg + sg.T
+        Ws = W * sg
+        oks, e = ctx.call(c.net.set_link_attribute, "ws", Ws.copy())
+        if oks:
+            c.check("link_attribute", "signed", Ws, "ws",
+                    counter="signed_weights_compared")
+            c.check("degree", "key,signed", R.degree(A, directed, Ws), "ws",
+                    counter="signed_weights_compared")
+            c.check("indegree", "key,signed", R.indegree(A, Ws), "ws",
+                    counter="signed_weights_compared")
+            c.check("outdegree", "key,signed", R.outdegree(A, Ws), "ws",
+                    counter="signed_weights_compared")
+        else:
+            ctx.violation(f"set_link_attribute:{c.dirs}:raises:"
+                          f"{type(e).__name__}:signed", c.info(exc=repr(e)),
+                          cid)
 
     # ---- degree distributions -----------------------------------------------
     for pre, kk in (("", kdeg), ("in", kin), ("out", kout)):
